@@ -324,24 +324,32 @@ theorem panic_states_inv (s : GasState) (mn : String) (args charges : List Nat) 
   unfold panicStates at ht
   simp only at ht
   have hp := prefixStates_inv charges h
+  have hl : (prefixStates s charges).getLastD s ∈ prefixStates s charges ∨
+      (prefixStates s charges).getLastD s = s := by
+    cases hps : prefixStates s charges with
+    | nil => right; rfl
+    | cons a l =>
+      left
+      rw [List.getLastD_cons]
+      exact List.getLastD_mem_cons
+  have hl' : Inv ((prefixStates s charges).getLastD s) ∧ ((prefixStates s charges).getLastD s).ggas ≤ s.ggas := by
+    rcases hl with hl | hl
+    · exact ⟨(hp _ hl).1, (hp _ hl).2.1⟩
+    · rw [hl]; exact ⟨h, Nat.le_refl _⟩
   split at ht
-  · simp only [List.mem_append, List.mem_cons, List.mem_nil_iff, or_false] at ht
-    rcases ht with ht | ht
-    · exact ⟨(hp t ht).1, (hp t ht).2.1⟩
-    · have hl : (prefixStates s charges).getLastD s ∈ prefixStates s charges ∨
-          (prefixStates s charges).getLastD s = s := by
-        cases hps : prefixStates s charges with
-        | nil => right; rfl
-        | cons a l =>
-          left
-          rw [List.getLastD_cons]
-          exact List.getLastD_mem_cons
-      have hl' : Inv ((prefixStates s charges).getLastD s) ∧ ((prefixStates s charges).getLastD s).ggas ≤ s.ggas := by
-        rcases hl with hl | hl
-        · exact ⟨(hp _ hl).1, (hp _ hl).2.1⟩
-        · rw [hl]; exact ⟨h, Nat.le_refl _⟩
-      subst ht
-      exact ⟨forwardAbort_inv _ hl'.1, by simpa [forwardAbort] using hl'.2⟩
+  · split at ht
+    · simp only [List.mem_append, List.mem_cons, List.mem_nil_iff, or_false] at ht
+      rcases ht with ht | ht
+      · exact ⟨(hp t ht).1, (hp t ht).2.1⟩
+      · subst ht
+        exact ⟨forwardAbort_inv _ hl'.1, by simpa [forwardAbort] using hl'.2⟩
+    · split at ht
+      · simp only [List.mem_append, List.mem_cons, List.mem_nil_iff, or_false] at ht
+        rcases ht with ht | ht
+        · exact ⟨(hp t ht).1, (hp t ht).2.1⟩
+        · subst ht
+          exact ⟨returnGas_inv hl'.1, by rw [returnGas_ggas]; exact hl'.2⟩
+      · exact ⟨(hp t ht).1, (hp t ht).2.1⟩
   · exact ⟨(hp t ht).1, (hp t ht).2.1⟩
 
 /-! ### the schedule tables generated from the Rust sources -/
